@@ -804,6 +804,10 @@ EXHAUSTIVE = {   # name: (tier, spec overrides): every 0/1 draw stream is dictat
     'two-units-natural-censoring': ('quick', {'plan': 'natural', 'covs': 'none', 'cens': True, 'lags': 'simple', 'sample': 2, 't_max': 2}),
     'one-unit-custom-covariate-two-steps': ('quick', {'plan': 'custom', 'rule': ['or', ['eq', 'L1', 1], ['eq', 'lag_A', 1]], 'covs': 'one',
                                                       'cens': True, 'lags': 'chain', 'sample': 1, 't_max': 2}),
+    'one-unit-custom-time-rule-three-steps': ('quick', {'plan': 'custom', 'rule': ['tge', 1], 'covs': 'none', 'cens': False, 'lags': 'simple',
+                                                        'sample': 1, 't_max': 3}),
+    'one-unit-custom-time-and-covariate': ('thorough', {'plan': 'custom', 'rule': ['and', ['tge', 2], ['eq', 'L1', 1]], 'covs': 'one', 'cens': False,
+                                                        'lags': 'simple', 'sample': 1, 't_max': 3}),
     'one-unit-custom-covariate': ('thorough', {'plan': 'custom', 'rule': ['or', ['eq', 'L1', 1], ['eq', 'lag_A', 1]], 'covs': 'one', 'cens': True,
                                                'lags': 'chain', 'sample': 1, 't_max': 3}),
     'three-units-all': ('thorough', {'plan': 'all', 'covs': 'none', 'cens': True, 'lags': 'simple', 'sample': 3, 't_max': 2}),
